@@ -85,30 +85,31 @@ def committed_under_lock(vc, what, name='revised'):
 
 
 # ================================================================================================ O5
-def _draw_ns_event(vc, tag, name, with_type=True):
+def _draw_ns_event(vc, tag, name, with_type=True, full=True):
     """An arbitrary namespace watch-event / listed body: any type (None = listing), deletionTimestamp absent / null /
-    any string (incl. ''), status absent / {} / conditions [] / 1 / 2 conditions whose `status` is absent or any string."""
+    any string (incl. ''), status absent / {} / conditions [] / [c] / [c-without-status, c] where c.status is any string.
+    `full=False`: a plain live namespace (no deletion mark, no status) of any type."""
     meta = {'name': name}
-    k = vc.nondet(3, f'{tag}: deletionTimestamp absent / null / string')
-    if k == 1:
-        meta['deletionTimestamp'] = None
-    elif k == 2:
-        meta['deletionTimestamp'] = vc.str(f'{tag}.deletionTimestamp')
-    obj = {'kind': 'Namespace', 'metadata': meta}
-    ncond = None
-    k = vc.nondet(5, f'{tag}: status absent / empty / no conditions / 1 / 2 conditions')
     conds = []
-    if k == 1:
-        obj['status'] = {}
-    elif k >= 2:
-        for i in range(k - 2):
-            c = {'type': f'T{i}'}
-            if vc.nondet(2, f'{tag}: condition {i} has a status?') == 1:
-                c['status'] = vc.str(f'{tag}.cond{i}.status')
-                if vc.nondet(2, f'{tag}: condition {i} has reason/message?') == 1:
+    obj = {'kind': 'Namespace', 'metadata': meta}
+    if full:
+        k = vc.nondet(3, f'{tag}: deletionTimestamp absent / null / string')
+        if k == 1:
+            meta['deletionTimestamp'] = None
+        elif k == 2:
+            meta['deletionTimestamp'] = vc.str(f'{tag}.deletionTimestamp')
+        k = vc.nondet(5, f'{tag}: status absent / empty / conditions [] / [c] / [c-without-status, c]')
+        if k == 1:
+            obj['status'] = {}
+        elif k >= 2:
+            if k == 4:
+                conds.append({'type': 'T0', 'reason': 'R'})
+            if k >= 3:
+                c = {'type': 'T1', 'status': vc.str(f'{tag}.cond.status')}
+                if k == 3:
                     c['reason'], c['message'] = 'R', 'M'
-            conds.append(c)
-        obj['status'] = {'phase': 'Terminating', 'conditions': conds}
+                conds.append(c)
+            obj['status'] = {'phase': 'Terminating', 'conditions': conds}
     ts = meta.get('deletionTimestamp')
     marked = False if ts is None else Not(Eq(ts, ''))
     blocked = Or(*[Eq(c['status'], 'True') for c in conds if 'status' in c]) if conds else False
@@ -138,18 +139,19 @@ def O5(vc):
         every configured pattern counts (any-of), an unmatched namespace is never added;
       * namespaces not named in the call are untouched; listed bodies (raw_bodies) follow the same rules as events of
         type None; the two inputs are both processed; no exception for any input of the domain.
-    Domain: 0-2 patterns with arbitrary match results; 1 event, 1 body, or 1 event + 1 body (other namespace);
-    event type None or any string; deletionTimestamp absent/null/any string; status absent/{}/0-2 conditions with
-    absent or arbitrary `status`.
+    Domain (bounded SHAPE, symbolic leaves): one event or one listed body with 0 or 2 patterns, or one event + one body
+    of another (plain, live) namespace with 1 pattern; match results arbitrary; event type None or any string;
+    deletionTimestamp absent/null/any string; status absent/{}/conditions [] / [c] / [c-without-status, c], c.status
+    any string; the named namespaces served or not before, another one always served.
     """
-    npat = vc.nondet(3, 'number of configured patterns')
-    patterns = [Opaque(f'pattern{i}') for i in range(npat)]
     shape = ['event', 'body', 'event+body'][vc.nondet(3, 'inputs: one event / one listed body / both')]
+    npat = 1 if shape == 'event+body' else [0, 2][vc.nondet(2, 'number of configured patterns: 0 / 2')]
+    patterns = [Opaque(f'pattern{i}') for i in range(npat)]
     items = []
     if shape in ('event', 'event+body'):
-        items.append(_draw_ns_event(vc, 'ev', 'ns-x'))
+        items.append(_draw_ns_event(vc, 'ev', 'ns-x', full=shape == 'event'))
     if shape in ('body', 'event+body'):
-        items.append(_draw_ns_event(vc, 'body', 'ns-y', with_type=False))
+        items.append(_draw_ns_event(vc, 'body', 'ns-y', with_type=False, full=shape == 'body'))
     match = {}
     consulted = set()
 
@@ -159,7 +161,7 @@ def O5(vc):
         if key not in match:
             match[key] = vc.bool(f'match({name},{pattern!r})')
         return match[key]
-    pre = set(['ns-x', 'ns-y', 'ns-other'][i] for i in range(3) if vc.nondet(2, f'served before: {i}') == 1)
+    pre = {'ns-other'} | {it['name'] for it in items if vc.nondet(2, f"served before: {it['name']}") == 1}
     insights = Opaque('insights', namespaces=set(pre))
     is_deleted = vc.load('kopf._core.reactor.observation', 'is_deleted').fn
     get_blockers = vc.load('kopf._core.reactor.observation', 'get_blockers').fn
@@ -203,7 +205,7 @@ def O5(vc):
         summary.append((n, was, now))
     named = {it['name'] for it in items}
     vc.ensure('others_untouched', all((n in post) == (n in pre) for n in ('ns-x', 'ns-y', 'ns-other') if n not in named)
-              and post <= {'ns-x', 'ns-y', 'ns-other'})
+              and post <= {'ns-other'} | named)
     return ('revised', shape, tuple(summary))
 
 
@@ -225,8 +227,8 @@ def O6(vc):
     type None: after a 410 the stream is re-listed and namespaces created in the gap are only seen as listed items --
     leads to a revision with exactly this event and the configured patterns (contract O5 then decides served/not);
     the revision happens while insights.revised is held and is followed by notify_all() before the lock is released.
-    CRD event: EVERY event (same argument for re-listed CRDs) re-scans the API group named in the CRD's spec.group
-    (only that group), revises the resources with the scan result for that group, fills the backbone with it, all
+    CRD event: EVERY event (same argument for re-listed CRDs) re-scans (at least) the API group named in the CRD's
+    spec.group, revises the resources with the scan result for that group, fills the backbone with it, all
     under the lock, then notify_all(); a failing scan propagates and nothing is revised.
     """
     scenario = ['namespace', 'resource'][vc.nondet(2, 'scenario')]
@@ -271,7 +273,7 @@ def O6(vc):
             vc.ensure('ns.committed_under_lock_then_notified', not any(n.startswith('revised.') for n in _names(vc)))
         return ('namespace', len(revs))
 
-    group = vc.str('crd.spec.group')
+    group = vc.fin('crd.spec.group', ['example.com', '', 'other.io'])
     event = {'type': etype, 'object': {'metadata': {'name': 'things.example.com'}, 'spec': {'group': group}}}
     settings, registry = Opaque('settings'), Opaque('registry')
     scanned = Opaque('scanned-resources')
@@ -309,8 +311,7 @@ def O6(vc):
         vc.ensure('failures_propagate', raised is None)
         return ('resource', 'ignored')
     sg = scans[0][1]
-    vc.ensure('res.rescans_the_group_of_the_crd', sg is not None and len(sg) == 1 and Eq(list(sg)[0], group)
-              and scans[0][2] is settings)
+    vc.ensure('res.rescans_the_group_of_the_crd', (sg is None or any(resolve(group) == g for g in sg)) and scans[0][2] is settings)
     if st['scan_exc'] is not None:
         vc.ensure('failures_propagate', raised is st['scan_exc'] and not revs and not fills)
         return ('resource', 'scan-failed')
